@@ -10,7 +10,7 @@ case "$CFG" in
   html_trace) FEAT="--features html_trace" ;;
   *) echo "unknown config $CFG" >&2; exit 2 ;;
 esac
-DRV=/verif/lint/target/release/h2t-lint
+DRV="$(cd "$(dirname "$0")/.." && pwd)/lint/target/release/h2t-lint"
 [ -x "$DRV" ] || { echo "driver not built: run MANIFEST.setup_cmd" >&2; exit 2; }
 SYSROOT=$(rustc +nightly --print sysroot)
 T=$(mktemp -d /tmp/h2t-target.XXXXXX)
